@@ -622,9 +622,11 @@ fn aim_recreate(seed: u64, policy: &str) -> Script {
         }
         // (sometimes the old incarnation is truncated first: its Truncate entry stays in the log and
         // must not reach the records of the new incarnation at a replay)
+        let mut old_truncation = None;
         if live.rng.chance(50) {
             let p = live.rng.below(old as u64);
             live.push(Step::Truncate { q: 0, p });
+            old_truncation = Some(p);
         }
         live.push(Step::Delete { q: 0 });
         live.push(Step::Create { q: 0 });
@@ -635,6 +637,13 @@ fn aim_recreate(seed: u64, policy: &str) -> Script {
         let fresh = old + 1 + live.rng.below(4) as usize;
         let batch: Vec<Payload> = (0..fresh).map(|_| live.payload(9)).collect();
         live.push(Step::Append { q: 0, pos: None, batch });
+        // (and the new incarnation sometimes gets the very truncation the old one got: the same
+        // call, on the same name, with the same bound - a different operation all the same)
+        if let Some(p) = old_truncation {
+            if live.rng.chance(60) {
+                live.push(Step::Truncate { q: 0, p });
+            }
+        }
         if live.rng.chance(50) {
             live.push(Step::Restart);
         }
